@@ -755,8 +755,23 @@ class C10:
             elif st[0] == "ok":
                 cm = R.canon(md[2])
                 near = set(k for k in set(cm) | set(st[2]) for x in (cm.get(k), st[2].get(k)) if x and x[0] is not None and abs(x[0] - st[3]) <= TOL)
-                if R.diff(st[2], cm, near):
-                    self.disagreements.append({"what": "D: accepted by both, results differ", "file": hx(f)})
+                df = R.diff(st[2], cm, near)
+                if df:
+                    # a disagreement on a fixed file is deterministic; one that comes from a deadline passing between the load,
+                    # the dump and the model's single `now` is not: load once more before recording it
+                    st2 = self.real_load(f)
+                    md2 = self.lean_dec(st2[3], f) if st2[0] == "ok" else None
+                    if md2 is not None and md2[0] == "ok":
+                        cm2 = R.canon(md2[2])
+                        near2 = set(k for k in set(cm2) | set(st2[2]) for x in (cm2.get(k), st2[2].get(k)) if x and x[0] is not None and abs(x[0] - st2[3]) <= TOL)
+                        df2 = R.diff(st2[2], cm2, near2)
+                    else:
+                        df2 = df
+                    if df2:
+                        self.disagreements.append({"what": "D: accepted by both, results differ", "file": hx(f), "load_ms": st[3], "diff": repr(df[:3])[:600], "diff_second_load": repr(df2[:3])[:600]})
+                    else:
+                        rep.count("D.differed-once-not-twice(deadline passing during the comparison)")
+                        self.notes.setdefault("differed_once", []).append({"file": hx(f)[:400], "load_ms": st[3], "diff": repr(df[:3])[:400]})
             if mal >= (1 << 20) and st[1] < mal and not bounded:
                 self.disagreements.append({"what": "D: model trace has an allocation of %d bytes, the real loader's largest request was %d" % (mal, st[1]), "file": hx(f)})
 
